@@ -614,9 +614,9 @@ class Leps(ObsFcstBased):
 
     def _compute_from_obs_fcst(self, obs, fcst):
         N = len(obs)
-        # Compute obs quantiles
-        Iobs = np.array(np.argsort(obs), 'float')
-        qobs = Iobs / N
+        # Compute obs quantiles (fraction of observations at or below each
+        # observation), consistent with how forecast quantiles are computed below
+        qobs = np.searchsorted(np.sort(obs), obs, side='right') / float(N)
 
         # Compute the quantiles that the forecasts are relative
         # to the observations
